@@ -28,6 +28,19 @@ CLAIMED = {
         note="Trusted: the spelling tables in harness/drivers/c05.py. Chained ranges (a - b - c) and equal end points are "
              "outside the claim (drift only). Numbers 1..99 / 1..999.",
         design_ref="§5.2, §6 C05"),
+    "C12": dict(
+        technique="TLA+ recogniser/Canon/Decompose + encoding and single-edit models enumerated by TLC, each terminal state "
+                  "replayed into TRS/Tract/trs_to_dict, TLC trace validation of every observation",
+        text="TLC enumerates every combination of component encodings (int, digit string, with lower/upper direction letter, "
+             "None, '', junk, placeholders, out-of-range) x defaults and every single-character insertion/deletion/substitution "
+             "of every canonical base string, checks the design invariants (round trip, idempotence, strictness, other "
+             "components kept) and emits each as a test; the harness runs them through 4 build and 4 string channels and TLC "
+             "evaluates canonical-form, strictness (no different valid-looking TRS), attribute decomposition, idempotence and "
+             "equality on each observation, plus random numbers 0..999 and multi-edit strings.",
+        note="Weaker readings (R3): upper-case direction letters count as standard form; a non-standard string must carry an "
+             "error placeholder ('154n97w' -> '154n97wXX' accepted). Negative ints, non-ASCII digits and strings with "
+             "surrounding blanks as *components* are outside the stated quantifier.",
+        design_ref="§5.6, §6 C12"),
 }
 
 NOT_APPLICABLE = {
